@@ -1,4 +1,8 @@
-"""Oracle validation (DESIGN 2.4): fixtures and expected answers literally asserted in pyformlang's own
+"""Oracle validation (DESIGN 2.4) — only the `check_*` functions run inside a check: they involve the
+oracles alone, so a broken library can never turn into a "harness error". The `library_*` functions (oracle vs
+library on the same fixtures) are developer aids.
+
+Oracle validation: fixtures and expected answers literally asserted in pyformlang's own
 tests (pyformlang/*/tests) are pushed through the oracles; a disagreement is a harness error (exit 2)."""
 from vlib.oracles import nfa as O, rx as RX, cfg as OC, pda as OP
 
@@ -27,7 +31,7 @@ def check_rx_fixtures():
         assert RX.classify(text)[0] == "ill", text
 
 
-def check_rx_against_library():
+def library_rx_against_fixtures():
     from pyformlang.regular_expression import Regex
     for text, word, want in RX_FIX:
         assert Regex(text).accepts(word) == want, ("library disagrees with its own test", text, word)
@@ -70,7 +74,7 @@ def check_nfa_fixtures():
     assert (1, 2) in O.indistinguishable_pairs(z) or (2, 1) in O.indistinguishable_pairs(z)
 
 
-def check_nfa_against_library():
+def library_nfa_against_oracle():
     from pyformlang.finite_automaton import EpsilonNFA
     e = EpsilonNFA()
     e.add_transitions([(0, "abc", 1), (0, "d", 1), (0, "epsilon", 2)])
@@ -109,7 +113,7 @@ def check_cfg_fixtures():
     assert OC.is_ll1(ll)
 
 
-def check_cfg_against_library():
+def library_cfg_against_oracle():
     from pyformlang.cfg import CFG
     g = CFG.from_text("S -> a S b | epsilon\n")
     ref = OC.extract(g)
@@ -127,7 +131,7 @@ def check_pda_fixtures():
     assert lf == {("a", "b"), ("a", "a", "b", "b")} and le == lf
 
 
-def check_pda_against_library():
+def library_pda_against_oracle():
     from pyformlang.cfg import CFG
     g = CFG.from_text("S -> a S b | a b\n")
     pda = g.to_pda()
